@@ -191,7 +191,7 @@ func ruleDEFERFREE(p *Program, rep *Report) {
 
 // ruleALLOCRECORDED: every allocation primitive is called only from functions that journal the result.
 func ruleALLOCRECORDED(p *Program, rep *Report) {
-	rep.Rule("ALLOC-RECORDED", 4, "every call of a freelist.Alloc* primitive and every end-marker advance sits in a function that records the allocated pages in txAllocArea.allocated/new (undo/ownership journal)")
+	rep.Rule("ALLOC-RECORDED", 3, "every call of a freelist.Alloc* primitive and every end-marker advance sits in a function that records the allocated pages in txAllocArea.allocated/new (undo/ownership journal)")
 	v := newAllocVocab(p)
 	journals := func(fn *ssa.Function) bool {
 		found := false
@@ -1108,9 +1108,30 @@ func (v *allocVocab) journalsValue(val ssa.Value, depth int) bool {
 		return false
 	}
 	d := forwardDerived(val)
-	isJournalAddr := func(x ssa.Value) bool {
-		fa, ok := x.(*ssa.FieldAddr)
-		return ok && (fieldOfAddr(fa) == v.fAllocated || fieldOfAddr(fa) == v.fNew)
+	var isJournalAddr func(x ssa.Value) bool
+	isJournalAddr = func(x ssa.Value) bool {
+		switch a := x.(type) {
+		case *ssa.FieldAddr:
+			return fieldOfAddr(a) == v.fAllocated || fieldOfAddr(a) == v.fNew
+		case *ssa.Parameter:
+			// the journal to record in is handed to the helper: every caller must pass one
+			pi := paramIndex(a.Parent(), a)
+			sites := v.p.callIndex().sites[a.Parent()]
+			if pi < 0 || len(sites) == 0 {
+				return false
+			}
+			for _, site := range sites {
+				if pi >= len(site.Common().Args) {
+					return false
+				}
+				fa, ok := site.Common().Args[pi].(*ssa.FieldAddr)
+				if !ok || !(fieldOfAddr(fa) == v.fAllocated || fieldOfAddr(fa) == v.fNew) {
+					return false
+				}
+			}
+			return true
+		}
+		return false
 	}
 	for x := range d {
 		refs := x.Referrers()
